@@ -237,6 +237,32 @@ func (g *c16gen) call() (string, []*G) {
 		if name == "nth1" {
 			k++
 		}
+		if r.coin(0.35) {
+			// the index variable also occurs in the element or in the list: nth0(X, [5,1,7], X),
+			// nth1(I, [f(1),f(5),f(3)], f(I)), nth0(I, [a,I,2], E)
+			n := 2 + r.intn(3)
+			var ns []*G
+			for i := 0; i < n; i++ {
+				ns = append(ns, gi(int64(r.intn(n+1))))
+			}
+			iv := g.v()
+			switch r.intn(4) {
+			case 0:
+				return name, []*G{iv, glist(ns, nil), iv}
+			case 1:
+				var fs []*G
+				for _, x := range ns {
+					fs = append(fs, gc("f", x))
+				}
+				return name, []*G{iv, glist(fs, nil), gc("f", iv)}
+			case 2:
+				ns[r.intn(n)] = iv
+				return name, []*G{iv, glist(ns, nil), g.v()}
+			default:
+				ns[r.intn(n)] = iv
+				return name, []*G{iv, glist(ns, nil), gi(int64(r.intn(n + 1)))}
+			}
+		}
 		return name, []*G{g.pick(gi(k), gi(0), gi(int64(len(l))+1)), glist(l, nil), g.pick(e, ga("a"))}
 	case 16:
 		l := g.list(5)
